@@ -25,8 +25,9 @@ prologue, loop iteration and write-back, statement by statement), `TapeMachine` 
 `play` / `stop` / `rewind`, the guard and countdown of `process_clocks` and every arm of its state machine as state
 transformers), `InputHandlers` (controller.rs: `send_key`, `send_sinclair_key`, `send_compound_key`,
 `send_mouse_*`, the half-row scan of `read_io`; joy/kempston.rs, mouse/kempston.rs, the `send_*` entry points of
-emulator/mod.rs) and `AyDispatch` (aym precise.rs: `write_register` and the setters; sound/ay.rs:
-`ZXAyChip::select_reg/write/read`). When the construct is found but a branch / a store / a byte read / an
+emulator/mod.rs), `AyDispatch` (aym precise.rs: `write_register` and the setters; sound/ay.rs:
+`ZXAyChip::select_reg/write/read`) and `HostLoop` (emulator/mod.rs: `emulate_frames` as ordered lists of
+classified statements with their tests, `have_sound`, `set_speed`). When the construct is found but a branch / a store / a byte read / an
 expression cannot be translated faithfully the extractor must not drop it silently. It prints
 `FAIL <table>: <file>:<line>: <why>`, writes a generated file that does not build (carrying the same
 message) and exits with status 1. A function that is not found at all (renamed, moved) is still a `SKIP`.
@@ -6396,6 +6397,676 @@ def ay_dispatch(repo):
 # <<< input handlers / AY dispatch
 
 
+
+
+# ---- HostLoop ------------------------------------------------------------------------------------------
+# rustzx-core/src/emulator/mod.rs (`emulate_frames`, `have_sound`, `set_speed`), translated statement by
+# statement (C16). The loop is emitted as *data*: four ordered lists of classified statements (before the
+# frame loop, head of the frame loop, body of the `'cpu` loop, tail of the frame loop) whose tests carry
+# their operands and comparison operators as written, plus a small interpreter over an abstract emulator
+# (`World`) and a scripted stopwatch. Not located -> Skip; located but outside the subset -> Fail.
+
+EMULATOR_RS = "rustzx-core/src/emulator/mod.rs"
+
+_HL_CMP = {"<": "lt", "<=": "le", ">": "gt", ">=": "ge", "==": "eq", "!=": "ne"}
+_HL_EVENTS = {"EmulationEvents::TAPE_FAST_LOAD_TRIGGER_DETECTED": "fastLoadTrigger",
+              "EmulationEvents::PC_BREAKPOINT": "pcBreakpoint"}
+_HL_REASONS = {"EmulationStopReason::Completed": "completed", "EmulationStopReason::Timeout": "timeout",
+               "EmulationStopReason::Breakpoint": "breakpoint"}
+
+
+def _hl_prepare(body):
+    """labels, `?`, `&mut`, method chains broken over lines: rewritten so that the expression tokenizer reads them"""
+    b = re.sub(r"(?<=[\w)])\s*\.\s*(?=[A-Za-z_])", ".", body)
+    b = re.sub(r"'(\w+)\s*:\s*loop\b", r"loop LABEL_\1", b)
+    b = re.sub(r"\bbreak\s+'(\w+)", r"break LABEL_\1", b)
+    b = re.sub(r"&\s*mut\s+", "", b)
+    return b.replace("?", " QMARK ")
+
+
+def _hl_payload(p):
+    """argument of `Ok(..)` / `Err(..)`: an expression or a struct literal `Name { field: expr, .. }`"""
+    if p.peek()[0] == "id" and p.peek(1)[1] == "{":
+        name = p.eat(); p.eat("{")
+        items = []
+        while not p.at("}"):
+            f = p.eat(); p.eat(":")
+            items.append((f, p.expr()))
+            if p.at(","):
+                p.eat()
+        p.eat("}")
+        return ("struct", name, items)
+    return p.expr()
+
+
+def _hl_block(p):
+    """statements of the host-loop functions up to the closing `}` (not consumed)"""
+    out = []
+    while p.peek()[0] is not None and not p.at("}"):
+        k, x = p.peek()
+        if x == ";":       # the stray `;` after an `if { .. }` statement
+            p.eat()
+            continue
+        if x == "let":
+            p.eat()
+            if p.at("mut"):
+                p.eat()
+            name = p.eat()
+            if p.at(":"):
+                raise Fail("%s: `let %s: ..` with a type annotation" % (p.where, name))
+            p.eat("=")
+            e = p.expr()
+            p.eat(";")
+            out.append(("let", name, e))
+            continue
+        if x == "if":
+            out.append(_hl_if(p))
+            continue
+        if x == "match":
+            p.eat()
+            scrut = p.expr()
+            p.eat("{")
+            arms = []
+            while not p.at("}"):
+                pat = p.expr()
+                if p.at("|") or p.at("if"):
+                    raise Fail("%s: a `match` arm with alternatives or a guard" % p.where)
+                p.eat("=>")
+                if not p.at("{"):
+                    raise Fail("%s: a `match` arm whose body is not a block" % p.where)
+                p.eat("{")
+                blk = _hl_block(p)
+                p.eat("}")
+                if p.at(","):
+                    p.eat()
+                arms.append((pat, blk))
+            p.eat("}")
+            out.append(("match", scrut, arms))
+            continue
+        if x == "loop":
+            p.eat()
+            label = None
+            if p.peek()[0] == "id" and p.peek()[1].startswith("LABEL_"):
+                label = p.eat()[6:]
+            p.eat("{")
+            blk = _hl_block(p)
+            p.eat("}")
+            out.append(("loop", label, blk))
+            continue
+        if x in ("while", "for", "continue"):
+            raise Fail("%s: `%s` (only `loop`, `break`, `return` are in the translated subset)" % (p.where, x))
+        if x == "break":
+            p.eat()
+            label = None
+            if p.peek()[0] == "id" and p.peek()[1].startswith("LABEL_"):
+                label = p.eat()[6:]
+            p.eat(";")
+            out.append(("break", label))
+            continue
+        if x == "return":
+            p.eat()
+            kind = p.eat()
+            if kind not in ("Ok", "Err"):
+                raise Fail("%s: `return %s ..` (expected `Ok(..)` or `Err(..)`)" % (p.where, kind))
+            p.eat("(")
+            pay = _hl_payload(p)
+            p.eat(")"); p.eat(";")
+            out.append(("return", kind, pay))
+            continue
+        if k == "id" and p.peek(1)[1] in ("=", "+=", "-=", "^=", "|=", "&="):
+            name = p.eat(); op = p.eat()
+            e = p.expr()
+            p.eat(";")
+            if op != "=":
+                raise Fail("%s: compound assignment `%s %s`" % (p.where, name, op))
+            out.append(("set", name, e))
+            continue
+        e = p.expr()
+        tried = False
+        if p.peek() == ("id", "QMARK"):
+            p.eat()
+            tried = True
+        if p.at(";"):
+            p.eat()
+            if e[0] != "call":
+                raise Fail("%s: expression statement that is not a call" % p.where)
+            out.append(("do", e, tried))
+        else:
+            if tried:
+                raise Fail("%s: `?` in a tail expression" % p.where)
+            out.append(("tail", e))
+    return out
+
+
+def _hl_if(p):
+    p.eat("if")
+    if p.at("let"):
+        p.eat()
+        pat = p.expr()
+        p.eat("=")
+        c = ("iflet", pat, p.expr())
+    else:
+        c = p.expr()
+    if p.peek() == ("id", "QMARK"):
+        raise Fail("%s: `?` inside an `if` condition" % p.where)
+    p.eat("{")
+    th = _hl_block(p)
+    p.eat("}")
+    el = None
+    if p.at("else"):
+        p.eat()
+        if p.at("if"):
+            el = [_hl_if(p)]
+        else:
+            p.eat("{")
+            el = _hl_block(p)
+            p.eat("}")
+    return ("if", c, th, el)
+
+
+def _hl_parse(src, name):
+    params, ret, body, line = _rust_fn(src, EMULATOR_RS, name)
+    where = "%s:%d (fn %s)" % (EMULATOR_RS, line, name)
+    try:
+        p = _P(_tokens(_hl_prepare(body), where), where)
+        stmts = _hl_block(p)
+        if p.peek()[0] is not None:
+            raise Fail("%s: unbalanced `}`" % where)
+    except (Skip, Fail):
+        raise
+    except Exception as e:
+        raise Fail("%s: could not be parsed (%r)" % (where, e))
+    return params, stmts, where
+
+
+_HOSTLOOP_HEAD = """/- GENERATED by tools/extract.py (HostLoop) from rustzx-core/src/emulator/mod.rs (`emulate_frames`, `have_sound`,
+`set_speed`) and rustzx-core/src/utils/mod.rs (`enum EmulationMode`): the host loop translated statement by statement
+into data (ordered lists of classified statements; every test with its operands and its comparison operator as
+written), with a small interpreter over an abstract emulator and a scripted stopwatch. Do not edit. -/
+set_option linter.unusedVariables false
+namespace ZxVerif.Extracted.HostLoop
+
+/-- a comparison operator of the source -/
+inductive Cmp | lt | le | gt | ge | eq | ne
+  deriving DecidableEq, Repr
+
+def Cmp.eval : Cmp → Nat → Nat → Bool
+  | .lt, a, b => decide (a < b)
+  | .le, a, b => decide (a ≤ b)
+  | .gt, a, b => decide (a > b)
+  | .ge, a, b => decide (a ≥ b)
+  | .eq, a, b => a == b
+  | .ne, a, b => a != b
+
+/-- an operand of a test / the `duration` of an `EmulationInfo`: `self.controller.frames_count()`, the count bound by
+the `EmulationMode::FrameCount(_)` pattern of the enclosing arm, `stopwatch.measure()` (a call: it consumes a reading),
+the `Duration` parameter of `emulate_frames`, an integer literal -/
+inductive Val | framesCount | frames | measure | limit | lit (n : Nat)
+  deriving DecidableEq, Repr
+
+/-- `EmulationStopReason` -/
+inductive Reason | completed | timeout | breakpoint
+  deriving DecidableEq, Repr
+
+/-- the `EmulationEvents` flags the loop tests -/
+inductive Event | fastLoadTrigger | pcBreakpoint
+  deriving DecidableEq, Repr
+
+/-- what a guarded block does: `self.process_fast_load_event()?`, `return Ok(EmulationInfo { duration, stop_reason })`,
+`return Err(e)`, `break 'cpu` -/
+inductive Act
+  | processFastLoad
+  | returnInfo (duration : Val) (reason : Reason)
+  | returnErr
+  | breakCpu
+  deriving DecidableEq, Repr
+
+/-- `if lhs cmp rhs { act }` -/
+structure Guarded where
+  lhs : Val
+  cmp : Cmp
+  rhs : Val
+  act : Act
+  deriving DecidableEq, Repr
+
+/-- a statement of `emulate_frames`, classified:
+`let stopwatch = H::EmulationStopwatch::new()`, `self.controller.reset_frame_counter()`,
+`self.cpu.emulate(&mut self.controller)`, `let events = self.controller.take_events()`,
+`if let Some(e) = self.controller.take_last_emulation_error() { act }`,
+`if events.contains(E) { act }` (`underNonEmpty`: written inside `if !events.is_empty() { .. }`),
+`if lhs cmp rhs { act }`, `match self.mode { FrameCount(frames) => { tests } Max => { tests } }` -/
+inductive Stmt
+  | newStopwatch | resetFrameCounter | cpuEmulate | takeEvents
+  | ifError (act : Act)
+  | ifEvent (underNonEmpty : Bool) (e : Event) (act : Act)
+  | ifCmp (g : Guarded)
+  | matchMode (frameCount : List Guarded) (max : List Guarded)
+  deriving DecidableEq, Repr
+
+/-- `emulate_frames`: the statements before the frame loop; inside the frame loop before the `'cpu` loop; the body
+of the `'cpu` loop; inside the frame loop after the `'cpu` loop. Nothing follows the frame loop. -/
+structure Program where
+  prologue : List Stmt
+  frameHead : List Stmt
+  cpuBody : List Stmt
+  frameTail : List Stmt
+  deriving DecidableEq, Repr
+
+/-! ### interpreter -/
+
+/-- `EmulationMode` -/
+inductive Mode
+%(mode_ctors)s
+  deriving DecidableEq, Repr
+
+/-- the local `events` -/
+structure Events where
+  fastLoadTrigger : Bool
+  pcBreakpoint : Bool
+  deriving DecidableEq, Repr
+
+def Events.isEmpty (ev : Events) : Bool := !ev.fastLoadTrigger && !ev.pcBreakpoint
+def Events.contains (ev : Events) : Event → Bool
+  | .fastLoadTrigger => ev.fastLoadTrigger
+  | .pcBreakpoint => ev.pcBreakpoint
+
+/-- Everything the loop calls, as functions of an abstract emulator state `S` (CPU + controller + host devices):
+`cpu.emulate(&mut controller)`; `take_last_emulation_error()` (was one set / the state with it cleared);
+`take_events()`; `process_fast_load_event()` (did it return `Err` / the state after it); `frames_count()`;
+`reset_frame_counter()`. -/
+structure World (S : Type) where
+  emulate : S → S
+  takeError : S → Bool × S
+  takeEvents : S → Events × S
+  fastLoad : S → Bool × S
+  framesCount : S → Nat
+  resetFrameCounter : S → S
+
+/-- what a call fixes: `self.mode`, `emulation_limit`, the readings a fresh stopwatch will deliver -/
+structure Ctx where
+  mode : Mode
+  limit : Nat
+  script : List Nat
+
+/-- interpreter state: the emulator, the local `events`, the unread readings of the stopwatch, calls of
+`measure()` and of `cpu.emulate` so far -/
+structure St (S : Type) where
+  s : S
+  events : Events
+  sw : List Nat
+  measures : Nat
+  emulates : Nat
+
+/-- how a call ends: the three `EmulationStopReason`s, `Err(e)`, the interpreter's fuel ran out, a `break 'cpu`
+outside the `'cpu` loop (never produced by the extractor) -/
+inductive Stop | completed | timeout | breakpoint | error | outOfFuel | malformed
+  deriving DecidableEq, Repr
+
+def Reason.toStop : Reason → Stop
+  | .completed => .completed
+  | .timeout => .timeout
+  | .breakpoint => .breakpoint
+
+/-- control after a statement: go on, `break 'cpu`, `return` -/
+inductive Flow (S : Type)
+  | next (st : St S)
+  | brk (st : St S)
+  | ret (st : St S) (stop : Stop) (duration : Nat)
+
+/-- `stopwatch.measure()`: the next reading of the script (0 when exhausted) -/
+def readStopwatch {S : Type} (st : St S) : Nat × St S :=
+  match st.sw with
+  | [] => (0, { st with measures := st.measures + 1 })
+  | d :: ds => (d, { st with sw := ds, measures := st.measures + 1 })
+
+def Val.eval {S : Type} (w : World S) (limit frames : Nat) : Val → St S → Nat × St S
+  | .framesCount, st => (w.framesCount st.s, st)
+  | .frames, st => (frames, st)
+  | .measure, st => readStopwatch st
+  | .limit, st => (limit, st)
+  | .lit n, st => (n, st)
+
+def Act.exec {S : Type} (w : World S) (limit frames : Nat) : Act → St S → Flow S
+  | .processFastLoad, st =>
+    if (w.fastLoad st.s).1 then .ret { st with s := (w.fastLoad st.s).2 } .error 0
+    else .next { st with s := (w.fastLoad st.s).2 }
+  | .returnInfo d r, st => .ret (d.eval w limit frames st).2 r.toStop (d.eval w limit frames st).1
+  | .returnErr, st => .ret st .error 0
+  | .breakCpu, st => .brk st
+
+/-- operands are evaluated left to right, then compared -/
+def Guarded.exec {S : Type} (w : World S) (limit frames : Nat) (g : Guarded) (st : St S) : Flow S :=
+  let a := g.lhs.eval w limit frames st
+  let b := g.rhs.eval w limit frames a.2
+  if g.cmp.eval a.1 b.1 then g.act.exec w limit frames b.2 else .next b.2
+
+def execGuards {S : Type} (w : World S) (limit frames : Nat) : List Guarded → St S → Flow S
+  | [], st => .next st
+  | g :: gs, st =>
+    match g.exec w limit frames st with
+    | .next st' => execGuards w limit frames gs st'
+    | f => f
+
+def Stmt.exec {S : Type} (w : World S) (c : Ctx) : Stmt → St S → Flow S
+  | .newStopwatch, st => .next { st with sw := c.script }
+  | .resetFrameCounter, st => .next { st with s := w.resetFrameCounter st.s }
+  | .cpuEmulate, st => .next { st with s := w.emulate st.s, emulates := st.emulates + 1 }
+  | .takeEvents, st => .next { st with s := (w.takeEvents st.s).2, events := (w.takeEvents st.s).1 }
+  | .ifError a, st =>
+    if (w.takeError st.s).1 then a.exec w c.limit 0 { st with s := (w.takeError st.s).2 }
+    else .next { st with s := (w.takeError st.s).2 }
+  | .ifEvent ne e a, st =>
+    if (!ne || !st.events.isEmpty) && st.events.contains e then a.exec w c.limit 0 st else .next st
+  | .ifCmp g, st => g.exec w c.limit 0 st
+  | .matchMode fc mx, st =>
+    match c.mode with
+%(mode_arms)s
+
+def execList {S : Type} (w : World S) (c : Ctx) : List Stmt → St S → Flow S
+  | [], st => .next st
+  | x :: xs, st =>
+    match x.exec w c st with
+    | .next st' => execList w c xs st'
+    | f => f
+
+/-- what a call leaves -/
+structure Result (S : Type) where
+  st : St S
+  stop : Stop
+  duration : Nat
+
+/-- the two nested loops; `fuel` bounds the iterations of the `'cpu` loop over the whole call. Leaving the `'cpu`
+loop runs the tail of the frame loop and then its head again. -/
+def Program.loop {S : Type} (p : Program) (w : World S) (c : Ctx) : Nat → St S → Result S
+  | 0, st => ⟨st, .outOfFuel, 0⟩
+  | fuel + 1, st =>
+    match execList w c p.cpuBody st with
+    | .next st1 => Program.loop p w c fuel st1
+    | .ret st1 stop d => ⟨st1, stop, d⟩
+    | .brk st1 =>
+      match execList w c p.frameTail st1 with
+      | .ret st2 stop d => ⟨st2, stop, d⟩
+      | .brk st2 => ⟨st2, .malformed, 0⟩
+      | .next st2 =>
+        match execList w c p.frameHead st2 with
+        | .next st3 => Program.loop p w c fuel st3
+        | .ret st3 stop d => ⟨st3, stop, d⟩
+        | .brk st3 => ⟨st3, .malformed, 0⟩
+
+/-- one call of `emulate_frames` from emulator state `s` -/
+def Program.run {S : Type} (p : Program) (w : World S) (c : Ctx) (fuel : Nat) (s : S) : Result S :=
+  match execList w c p.prologue ⟨s, ⟨false, false⟩, [], 0, 0⟩ with
+  | .ret st stop d => ⟨st, stop, d⟩
+  | .brk st => ⟨st, .malformed, 0⟩
+  | .next st0 =>
+    match execList w c p.frameHead st0 with
+    | .ret st stop d => ⟨st, stop, d⟩
+    | .brk st => ⟨st, .malformed, 0⟩
+    | .next st1 => p.loop w c fuel st1
+
+/-! ### the source, as data -/
+"""
+
+
+def _hl_mode_enum(repo):
+    """variants of `enum EmulationMode` in source order: [(name, has_count)]"""
+    rel = "rustzx-core/src/utils/mod.rs"
+    try:
+        src = blank_comments(read(repo, rel))
+    except OSError:
+        raise Skip("%s not found" % rel)
+    m = re.search(r"\benum\s+EmulationMode\s*\{([^}]*)\}", src)
+    if not m:
+        raise Skip("enum EmulationMode not found in %s" % rel)
+    out = []
+    for part in m.group(1).split(","):
+        part = re.sub(r"#\[[^\]]*\]", "", part).strip()
+        if not part:
+            continue
+        mm = re.fullmatch(r"(\w+)(?:\s*\(\s*(\w+)\s*\))?", part)
+        if not mm:
+            raise Fail("%s: variant `%s` of EmulationMode" % (rel, part))
+        out.append((mm.group(1), mm.group(2)))
+    if out != [("FrameCount", "usize"), ("Max", None)]:
+        raise Fail("%s: enum EmulationMode has the variants %s (the translation knows FrameCount(usize), Max)" % (rel, out))
+    return out
+
+
+def host_loop(repo):
+    try:
+        src = blank_comments(read(repo, EMULATOR_RS))
+    except OSError:
+        raise Skip("%s not found" % EMULATOR_RS)
+    for fn in ("emulate_frames", "have_sound", "set_speed"):   # all three located before anything is translated
+        _rust_fn(src, EMULATOR_RS, fn)
+    _hl_mode_enum(repo)
+    params, stmts, where = _hl_parse(src, "emulate_frames")
+    try:
+        prog = _hl_program(params, stmts, where)
+        flags = _hl_flags(src)
+    except (Skip, Fail):
+        raise
+    except Exception as e:
+        raise Fail("%s: could not be classified (%r)" % (where, e))
+    t = [_HOSTLOOP_HEAD % {
+        "mode_ctors": "  | frameCount (n : Nat)\n  | max",
+        "mode_arms": "    | .frameCount n => execGuards w c.limit n fc st\n    | .max => execGuards w c.limit 0 mx st"}]
+
+    def lst(name, doc, items, ind="  "):
+        t.append("/-- %s -/" % doc)
+        t.append("def %s : List Stmt := [" % name)
+        for n, it in enumerate(items):
+            t.append(ind + it + ("," if n + 1 < len(items) else ""))
+        t.append("]")
+    lst("prologue", "before the frame loop", prog["prologue"])
+    lst("frameHead", "in the frame loop, before the `'cpu` loop", prog["frameHead"])
+    lst("cpuBody", "the body of the `'cpu` loop", prog["cpuBody"])
+    lst("frameTail", "in the frame loop, after the `'cpu` loop", prog["frameTail"])
+    t += ["/-- `emulate_frames` -/",
+          "def program : Program := { prologue := prologue, frameHead := frameHead, cpuBody := cpuBody, frameTail := frameTail }",
+          ""]
+    t += flags
+    t += ["", "end ZxVerif.Extracted.HostLoop"]
+    return "\n".join(t) + "\n"
+
+
+def _hl_program(params, stmts, where):
+    # the `Duration` parameter
+    lim = [m.group(1) for part in params.split(",")
+           for m in [re.match(r"^\s*(?:mut\s+)?(\w+)\s*:\s*(?:core::time::|std::time::)?Duration\s*$", part)] if m]
+    if len(lim) != 1:
+        raise Fail("%s: expected exactly one `Duration` parameter, found %s" % (where, lim))
+    names = {"limit": lim[0], "sw": None, "events": None}
+
+    def val(e, frames):
+        if e[0] == "num":
+            return ".lit %d" % e[1]
+        if e == ("call", "self.controller.frames_count", []):
+            return ".framesCount"
+        if names["sw"] and e == ("call", names["sw"] + ".measure", []):
+            return ".measure"
+        if e == ("var", names["limit"]):
+            return ".limit"
+        if frames and e == ("var", frames):
+            return ".frames"
+        raise Fail("%s: operand `%s` is none of frames_count(), the FrameCount count, stopwatch.measure(), the time "
+                   "limit, a literal" % (where, _hl_show(e)))
+
+    def act(blk, frames, err_var, cpu_label, in_cpu):
+        if len(blk) != 1:
+            raise Fail("%s: a guarded block with %d statements (expected one: fast load, return, break)" % (where, len(blk)))
+        s = blk[0]
+        if s[0] == "do" and s[1] == ("call", "self.process_fast_load_event", []):
+            if not s[2]:
+                raise Fail("%s: the result of process_fast_load_event() is not propagated with `?`" % where)
+            return ".processFastLoad"
+        if s[0] == "return" and s[1] == "Err":
+            if err_var is None or s[2] != ("var", err_var):
+                raise Fail("%s: `return Err(%s)` of something other than the error just taken" % (where, _hl_show(s[2])))
+            return ".returnErr"
+        if s[0] == "return" and s[1] == "Ok":
+            pay = s[2]
+            if pay[0] != "struct" or pay[1] != "EmulationInfo" or sorted(f for f, _ in pay[2]) != ["duration", "stop_reason"]:
+                raise Fail("%s: `return Ok(..)` of something other than `EmulationInfo { duration, stop_reason }`" % where)
+            d = dict(pay[2])
+            r = d["stop_reason"]
+            if r[0] != "var" or r[1] not in _HL_REASONS:
+                raise Fail("%s: stop reason `%s`" % (where, _hl_show(r)))
+            return "(.returnInfo %s .%s)" % (val(d["duration"], frames), _HL_REASONS[r[1]])
+        if s[0] == "break":
+            if not in_cpu or (s[1] is not None and s[1] != cpu_label):
+                raise Fail("%s: `break%s` does not leave the innermost (`'cpu`) loop" % (where, " '" + s[1] if s[1] else ""))
+            return ".breakCpu"
+        raise Fail("%s: a guarded block that is neither the fast load, a return nor a break (%s)" % (where, s[0]))
+
+    def guarded(s, frames, cpu_label, in_cpu):
+        if s[0] != "if" or s[3] is not None:
+            raise Fail("%s: expected an `if` without `else`, found `%s`%s" % (where, s[0], " with else" if s[0] == "if" else ""))
+        c = s[1]
+        if c[0] != "bin" or c[1] not in _HL_CMP:
+            raise Fail("%s: test `%s` is not a single comparison" % (where, _hl_show(c)))
+        return "⟨%s, .%s, %s, %s⟩" % (val(c[2], frames), _HL_CMP[c[1]], val(c[3], frames),
+                                       act(s[2], frames, None, cpu_label, in_cpu))
+
+    def classify(blk, cpu_label, in_cpu):
+        out = []
+        for s in blk:
+            if s[0] == "let" and s[2][0] == "call" and not s[2][2] and re.search(r"(^|::)EmulationStopwatch::new$", s[2][1]):
+                if names["sw"]:
+                    raise Fail("%s: a second stopwatch" % where)
+                names["sw"] = s[1]
+                out.append(".newStopwatch")
+            elif s[0] == "let" and s[2] == ("call", "self.controller.take_events", []):
+                names["events"] = s[1]
+                out.append(".takeEvents")
+            elif s[0] == "do" and not s[2] and s[1] == ("call", "self.controller.reset_frame_counter", []):
+                out.append(".resetFrameCounter")
+            elif s[0] == "do" and not s[2] and s[1] == ("call", "self.cpu.emulate", [("var", "self.controller")]):
+                out.append(".cpuEmulate")
+            elif s[0] == "if" and isinstance(s[1], tuple) and s[1][0] == "iflet":
+                pat, scr = s[1][1], s[1][2]
+                if s[3] is not None or scr != ("call", "self.controller.take_last_emulation_error", []) or \
+                        pat[0] != "call" or pat[1] != "Some" or len(pat[2]) != 1 or pat[2][0][0] != "var":
+                    raise Fail("%s: an `if let` other than `if let Some(e) = self.controller.take_last_emulation_error() {..}`" % where)
+                out.append("(.ifError %s)" % act(s[2], None, pat[2][0][1], cpu_label, in_cpu))
+            elif s[0] == "if" and names["events"] and s[1] == ("un", "!", ("call", names["events"] + ".is_empty", [])):
+                if s[3] is not None:
+                    raise Fail("%s: `if !events.is_empty()` with an `else`" % where)
+                for x in s[2]:
+                    out.append(event_test(x, True, cpu_label, in_cpu))
+            elif s[0] == "if" and names["events"] and s[1][0] == "call" and s[1][1] == names["events"] + ".contains":
+                out.append(event_test(s, False, cpu_label, in_cpu))
+            elif s[0] == "if":
+                out.append("(.ifCmp %s)" % guarded(s, None, cpu_label, in_cpu))
+            elif s[0] == "match":
+                if s[1] != ("var", "self.mode"):
+                    raise Fail("%s: `match` on `%s` (expected self.mode)" % (where, _hl_show(s[1])))
+                arms = {}
+                for pat, blk2 in s[2]:
+                    if pat[0] == "call" and pat[1] == "EmulationMode::FrameCount" and len(pat[2]) == 1 and pat[2][0][0] == "var":
+                        key, fr = "frameCount", pat[2][0][1]
+                    elif pat == ("var", "EmulationMode::Max"):
+                        key, fr = "max", None
+                    else:
+                        raise Fail("%s: arm `%s` of the mode match" % (where, _hl_show(pat)))
+                    if key in arms:
+                        raise Fail("%s: two arms for %s" % (where, key))
+                    arms[key] = "[%s]" % ", ".join(guarded(x, fr, cpu_label, in_cpu) for x in blk2)
+                if sorted(arms) != ["frameCount", "max"]:
+                    raise Fail("%s: the mode match has the arms %s" % (where, sorted(arms)))
+                out.append("(.matchMode %s %s)" % (arms["frameCount"], arms["max"]))
+            else:
+                raise Fail("%s: a statement the extractor cannot classify (`%s`%s)" % (
+                    where, s[0], " " + _hl_show(s[1]) if s[0] == "do" else (" " + s[1] if s[0] in ("let", "set") else "")))
+        return out
+
+    def event_test(s, under, cpu_label, in_cpu):
+        ev = names["events"]
+        if s[0] != "if" or s[3] is not None or s[1][0] != "call" or s[1][1] != ev + ".contains" or len(s[1][2]) != 1:
+            raise Fail("%s: inside `if !%s.is_empty()`: something other than `if %s.contains(..) {..}`" % (where, ev, ev))
+        flag = s[1][2][0]
+        if flag[0] != "var" or flag[1] not in _HL_EVENTS:
+            raise Fail("%s: event `%s` is not one the translation knows (%s)" % (where, _hl_show(flag), ", ".join(sorted(_HL_EVENTS))))
+        return "(.ifEvent %s .%s %s)" % ("true" if under else "false", _HL_EVENTS[flag[1]], act(s[2], None, None, cpu_label, in_cpu))
+
+    # shape: statements, then the frame loop as the last statement
+    loops = [k for k, s in enumerate(stmts) if s[0] == "loop"]
+    if len(loops) != 1 or loops[0] != len(stmts) - 1:
+        raise Fail("%s: the function is not `<statements> loop { .. }` (loops at statement %s of %d)" % (where, loops, len(stmts)))
+    outer = stmts[-1][2]
+    inner = [k for k, s in enumerate(outer) if s[0] == "loop"]
+    if len(inner) != 1:
+        raise Fail("%s: the frame loop contains %d loops (expected the `'cpu` loop)" % (where, len(inner)))
+    k = inner[0]
+    cpu_label = outer[k][1]
+    if any(x[0] == "loop" for x in outer[k][2]):
+        raise Fail("%s: a loop inside the `'cpu` loop" % where)
+    return {"prologue": classify(stmts[:-1], cpu_label, False),
+            "frameHead": classify(outer[:k], cpu_label, False),
+            "cpuBody": classify(outer[k][2], cpu_label, True),
+            "frameTail": classify(outer[k + 1:], cpu_label, False)}
+
+
+def _hl_show(e):
+    """an expression tree, readably"""
+    if not isinstance(e, tuple):
+        return str(e)
+    if e[0] == "var":
+        return e[1]
+    if e[0] == "num":
+        return str(e[1])
+    if e[0] == "call":
+        return "%s(%s)" % (e[1], ", ".join(_hl_show(a) for a in e[2]))
+    if e[0] == "bin":
+        return "%s %s %s" % (_hl_show(e[2]), e[1], _hl_show(e[3]))
+    if e[0] == "un":
+        return e[1] + _hl_show(e[2])
+    return e[0]
+
+
+def _hl_flags(src):
+    """`set_speed` and `have_sound` as functions of the two fields they touch"""
+    t = ["/-- the fields of `Emulator` that `set_speed` / `have_sound` touch -/", "structure HostFlags where",
+         "  mode : Mode", "  sound_enabled : Bool", "  deriving DecidableEq, Repr", ""]
+    params, stmts, where = _hl_parse(src, "set_speed")
+    ps = [m.group(1) for part in params.split(",") for m in [re.match(r"^\s*(\w+)\s*:\s*EmulationMode\s*$", part)] if m]
+    if len(ps) != 1:
+        raise Fail("%s: expected one EmulationMode parameter" % where)
+    if stmts != [("set", "self.mode", ("var", ps[0]))]:
+        raise Fail("%s: the body is not the single store `self.mode = %s;`" % (where, ps[0]))
+    t += ["/-- `set_speed`: `self.mode = %s;` -/" % ps[0],
+          "def setSpeed (e : HostFlags) (%s : Mode) : HostFlags := { e with mode := %s }" % (ps[0], ps[0]), ""]
+    params, stmts, where = _hl_parse(src, "have_sound")
+    if len(stmts) != 1 or stmts[0][0] != "if" or not (isinstance(stmts[0][1], tuple) and stmts[0][1][0] == "iflet") or stmts[0][3] is None:
+        raise Fail("%s: the body is not a single `if let <mode pattern> = self.mode { .. } else { .. }`" % where)
+    _, (_, pat, scr), th, el = stmts[0]
+    if scr != ("var", "self.mode"):
+        raise Fail("%s: the pattern is matched against `%s` (expected self.mode)" % (where, _hl_show(scr)))
+    if pat[0] == "call" and pat[1] == "EmulationMode::FrameCount" and len(pat[2]) == 1 and pat[2][0][0] == "num":
+        lp = ".frameCount %d" % pat[2][0][1]
+    elif pat == ("var", "EmulationMode::Max"):
+        lp = ".max"
+    else:
+        raise Fail("%s: mode pattern `%s`" % (where, _hl_show(pat)))
+
+    def bval(blk):
+        if len(blk) == 1 and blk[0][0] == "tail":
+            e = blk[0][1]
+            if e == ("var", "self.sound_enabled"):
+                return "e.sound_enabled"
+            if e in (("var", "true"), ("var", "false")):
+                return e[1]
+            if e == ("un", "!", ("var", "self.sound_enabled")):
+                return "(!e.sound_enabled)"
+        raise Fail("%s: a branch value other than self.sound_enabled / true / false" % where)
+    t += ["/-- the pattern `have_sound` matches `self.mode` against -/", "def haveSoundPattern : Mode := %s" % lp,
+          "/-- `have_sound`: `if let <pattern> = self.mode { %s } else { %s }` -/" % (bval(th), bval(el)),
+          "def haveSound (e : HostFlags) : Bool := if e.mode = haveSoundPattern then %s else %s" % (bval(th), bval(el))]
+    return t
+
+
+
+
 TABLES = [("Machine", machine), ("Contended", contention_fn), ("Keys", keys), ("Sinclair", sinclair),
           ("Z80Tables", z80_tables), ("TapeConsts", tape_consts), ("AyTables", ay_tables), ("Ports", ports),
           ("SnaLayout", sna_layout), ("SzxLayout", szx_layout),
@@ -6403,7 +7074,7 @@ TABLES = [("Machine", machine), ("Contended", contention_fn), ("Keys", keys), ("
           ("Paging", paging), ("FrameClock", frame_clock),
           ("VtxLayout", vtx_layout), ("FastLoad", fast_load),
           ("TapeMachine", tape_machine),
-          ("InputHandlers", input_handlers), ("AyDispatch", ay_dispatch)]
+          ("InputHandlers", input_handlers), ("AyDispatch", ay_dispatch), ("HostLoop", host_loop)]
 
 
 def main():
